@@ -135,7 +135,7 @@ def biv_roundtrip():
 # ---------------------------------------------------------------- Gaussian multivariate
 
 def gm_roundtrip():
-    cols = ['c', 'a', 7]
+    cols = ['c', 'a', 'b']          # deliberately not in sorted order
 
     def fn(ctx):
         rng = RNGModel()
@@ -237,6 +237,16 @@ def vine_roundtrip(d, tree_type):
 # ---------------------------------------------------------------- concrete enumeration
 
 def concrete_violation():
+    try:
+        return _concrete_violation()
+    except Exception as e:      # the real code raising during a round trip is a reproduced failure
+        import traceback
+        tb = traceback.extract_tb(e.__traceback__)
+        where = next((f'{f.filename.split("/")[-1]}:{f.lineno}' for f in reversed(tb) if '/copulas/' in f.filename), '')
+        return True, f'a round trip raises {type(e).__name__}: {e} ({where})'
+
+
+def _concrete_violation():
     warnings.simplefilter('ignore')
     rs = np.random.RandomState(0)
     x = rs.gamma(3.0, 1.5, 200) + 1
@@ -287,12 +297,24 @@ def concrete_violation():
         c2.set_random_state(3)
         if not np.array_equal(c.sample(3), c2.sample(3)):
             return True, f'{cls.__name__}: sample stream differs after save/load'
+    # edge parameters: a Clayton copula fitted on comonotone data has theta = inf
+    ce = Clayton()
+    ce.fit(np.column_stack((np.linspace(0.05, 0.95, 20), np.linspace(0.05, 0.95, 20))))
+    with tempfile.TemporaryDirectory(dir=os.environ.get('VERIF_WORK', None)) as td:
+        pth = os.path.join(td, 'e.json')
+        ce.save(pth)
+        ce2 = Bivariate.load(pth)
+    if ce2.to_dict() != ce.to_dict() or type(ce2) is not Clayton:
+        return True, f'Clayton with theta={ce.theta} (tau={ce.tau}): save/load gives {ce2.to_dict()}'
+    ce3 = Bivariate.from_dict(json.loads(json.dumps(ce.to_dict())))
+    if ce3.to_dict() != ce.to_dict():
+        return True, f'Clayton with theta={ce.theta}: JSON round trip gives {ce3.to_dict()}'
     u = Clayton()
     u2 = Bivariate.from_dict(u.to_dict())
     if u2.theta is not None:
         return True, 'unfitted bivariate does not round-trip to an unfitted one'
-    t = pd.DataFrame({'a': x, 'b': 0.5 * x + rs.normal(size=200), 'k': np.full(200, 2.0)})
-    g = GaussianMultivariate(distribution={'a': GaussianKDE, 'b': GaussianUnivariate})
+    t = pd.DataFrame({'width': x, 'height': 0.5 * x + rs.normal(size=200), 'age': np.full(200, 2.0), 3: rs.normal(size=200) - 0.3 * x})
+    g = GaussianMultivariate(distribution={'width': GaussianKDE, 'height': GaussianUnivariate})
     g.fit(t)
     d1 = g.to_dict()
     try:
